@@ -128,6 +128,8 @@ from . import removals
 
 from . import vocab
 
+from . import inventory
+
 OBLIGATIONS = [
     ('C17.O1', 'every hash iteration is classified', 'each of the >= 30 iteration sites over a HashMap/HashSet is a commutative reduction, a pure retain, a loop without '
      'shared writes, collected-and-sorted, or matches a reviewed entry with exactly the computed effect signature; callers of map-ordered results are reviewed.', o1),
@@ -135,4 +137,5 @@ OBLIGATIONS = [
     ('C17.O3', 'order-independent merge of pending disconnects (= C07.O3)', 'see C07.O3', c07.o3),
     ('C17.R', 'who may remove', 'every call that takes elements out of a collection this property\'s rules rely on (keyed removal from a map, or bulk / positional removal) is one of the reviewed sites in tables/removals.json; a lookup turned into a removal, a second prune, a clear on another path is reported; see rules/removals.py', removals.rule_for('C17')),
     ('C17.V', 'no unreviewed condition in the pinned helpers', 'for each helper whose body this property\'s rules pin (tables/condition_terms.json), the terms its path conditions are built from (fields, parameters, call results -- no constants, operators or local names) are a subset of the reviewed vocabulary: one more `if` in front of a pinned result (a lock that may time out, "only while an endpoint is running") is reported; see rules/vocab.py', vocab.rule_for('C17')),
+    ('C17.S', 'state inventory', 'every field of the structs this property\'s rules read (tables/state.json) is known, and is written only by its reviewed writers (or helpers only they call): a new field is new state across calls -- a cache, a flag, a stored deadline -- that nothing has shown to stay in step; a new writer is a second place that resets, re-arms or moves something; see rules/inventory.py', inventory.state_rule_for('C17')),
 ]
